@@ -44,4 +44,89 @@ theorem take_append_set (P bl : List α) (k : Nat) (v : α) (hk : k < bl.length)
   rw [Nat.add_assoc, List.take_length_add_append, List.take_length_add_append, take_set_succ _ _ _ hk,
     List.append_assoc]
 
+theorem Queue.enqueue_spec (zero : α) (q : Queue α) (v : α) (h : q.Inv) :
+    ∃ q', q.enqueue zero v = .ok q' ∧ q'.Inv ∧ q'.abs = q.abs ++ [v] := by
+  obtain ⟨hpos, hbl, hidx, hfl, hsz⟩ := h
+  have h1 := newBlock_toList zero q.nodeSize hpos
+  by_cases hn : q.nodes = []
+  · have habs : q.abs = [] := by simp [Queue.abs, Queue.cells, hn]
+    have hs : setLast [newBlock zero q.nodeSize] 0 v = .ok [(newBlock zero q.nodeSize).set! 0 v] := by
+      simpa using setLast_ok [] (newBlock zero q.nodeSize) 0 v (by omega) (by simp; omega)
+    simp only [Queue.enqueue, hn, List.isEmpty_nil, if_true, hs]
+    have hstop : Queue.stop (⟨q.nodeSize, q.listSize + 1, 0, 0, [(newBlock zero q.nodeSize).set! 0 v]⟩ : Queue α)
+        = 1 := by
+      simp [Queue.stop, Queue.cells, h1]; omega
+    have habs' : Queue.abs (⟨q.nodeSize, q.listSize + 1, 0, 0, [(newBlock zero q.nodeSize).set! 0 v]⟩ : Queue α)
+        = q.abs ++ [v] := by
+      rw [habs, Queue.abs, hstop]; simp [Queue.cells, h1]
+    refine ⟨_, rfl, ⟨hpos, ?_, ?_, ?_, ?_⟩, habs'⟩
+    · simp
+    · simp; omega
+    · simp
+    · rw [habs', habs]; simp [hsz, habs]
+  · obtain ⟨pre, b, hpb⟩ : ∃ pre b, q.nodes = pre ++ [b] :=
+      ⟨_, _, (List.dropLast_concat_getLast hn).symm⟩
+    have hi := hidx hn
+    have hf := hfl hn
+    have hb : b.size = q.nodeSize := hbl b (by simp [hpb])
+    have hcells : q.cells = pre.flatMap Array.toList ++ b.toList := by simp [Queue.cells, hpb]
+    have hne : q.nodes.isEmpty = false := by simp [hn]
+    by_cases hfull : q.rearIndex + 1 = ↑q.nodeSize
+    · have hs : setLast (q.nodes ++ [newBlock zero q.nodeSize]) 0 v
+          = .ok (q.nodes ++ [(newBlock zero q.nodeSize).set! 0 v]) := by
+        simpa using setLast_ok q.nodes (newBlock zero q.nodeSize) 0 v (by omega) (by simp; omega)
+      simp only [Queue.enqueue, hne, hfull, Bool.false_eq_true, if_false, if_true, hs]
+      have hstop : q.stop = q.cells.length := by simp [Queue.stop, hfull]
+      have hstop' : Queue.stop (⟨q.nodeSize, q.listSize + 1, q.frontIndex, 0,
+          q.nodes ++ [(newBlock zero q.nodeSize).set! 0 v]⟩ : Queue α) = q.cells.length + 1 := by
+        simp [Queue.stop, Queue.cells, h1]; omega
+      have habs' : Queue.abs (⟨q.nodeSize, q.listSize + 1, q.frontIndex, 0,
+          q.nodes ++ [(newBlock zero q.nodeSize).set! 0 v]⟩ : Queue α) = q.abs ++ [v] := by
+        rw [Queue.abs, hstop', Queue.abs, hstop]
+        have hc : Queue.cells (⟨q.nodeSize, q.listSize + 1, q.frontIndex, 0,
+            q.nodes ++ [(newBlock zero q.nodeSize).set! 0 v]⟩ : Queue α)
+            = q.cells ++ (v :: List.replicate (q.nodeSize - 1) zero) := by
+          simp [Queue.cells, h1]
+        rw [hc, List.take_length_add_append, List.take_length]
+        simp only [List.take_succ_cons, List.take_zero]
+        rw [List.drop_append_of_le_length (by omega)]
+      refine ⟨_, rfl, ⟨hpos, ?_, ?_, ?_, ?_⟩, habs'⟩
+      · intro b' hb'
+        simp at hb'
+        rcases hb' with hb' | rfl
+        · exact hbl _ hb'
+        · simp
+      · simp; omega
+      · intro _; rw [hstop']; simp; omega
+      · rw [habs']; simp [hsz]
+    · have hs : setLast q.nodes (q.rearIndex + 1) v = .ok (pre ++ [b.set! (q.rearIndex + 1).toNat v]) := by
+        rw [hpb]; exact setLast_ok pre b _ v (by omega) (by omega)
+      simp only [Queue.enqueue, hne, hfull, Bool.false_eq_true, if_false, hs]
+      have hstop : q.stop = (pre.flatMap Array.toList).length + (q.rearIndex + 1).toNat := by
+        simp [Queue.stop, hcells, hb]; omega
+      have hc : Queue.cells (⟨q.nodeSize, q.listSize + 1, q.frontIndex, q.rearIndex + 1,
+          pre ++ [b.set! (q.rearIndex + 1).toNat v]⟩ : Queue α)
+          = pre.flatMap Array.toList ++ b.toList.set (q.rearIndex + 1).toNat v := by
+        simp [Queue.cells]
+      have hstop' : Queue.stop (⟨q.nodeSize, q.listSize + 1, q.frontIndex, q.rearIndex + 1,
+          pre ++ [b.set! (q.rearIndex + 1).toNat v]⟩ : Queue α)
+          = (pre.flatMap Array.toList).length + (q.rearIndex + 1).toNat + 1 := by
+        rw [Queue.stop, hc]; simp [hb]; omega
+      have habs' : Queue.abs (⟨q.nodeSize, q.listSize + 1, q.frontIndex, q.rearIndex + 1,
+          pre ++ [b.set! (q.rearIndex + 1).toNat v]⟩ : Queue α) = q.abs ++ [v] := by
+        rw [Queue.abs, hstop', hc, Queue.abs, hstop, hcells,
+          take_append_set _ _ _ _ (by simp; omega)]
+        rw [List.drop_append_of_le_length]
+        simp only [List.length_take, List.length_append, Array.length_toList]
+        omega
+      refine ⟨_, rfl, ⟨hpos, ?_, ?_, ?_, ?_⟩, habs'⟩
+      · intro b' hb'
+        simp at hb'
+        rcases hb' with hb' | rfl
+        · exact hbl _ (by simp [hpb, hb'])
+        · simp [hb]
+      · simp; omega
+      · intro _; rw [hstop']; show q.frontIndex.toNat ≤ _; omega
+      · rw [habs']; simp [hsz]
+
 end AlgoVerif.C18
